@@ -1,1 +1,82 @@
-From Ufw Require Import Model.Persist.
+(* C10  Persistent store/validate/fetch round-trips and stays inside its region.
+   Statements only; proofs in Proof/PersistLemmas.v; model Model/Persist.v.  [step] is the configured
+   checksum algorithm (one step per octet); [wf st m]: fault-free medium whose window covers the
+   instance's region, chunk size >= 1, region below 2^32; [at_ m a n]: the n octets of the medium at a. *)
+From Ufw Require Import Base.Bits Model.Persist Proof.PersistLemmas.
+Local Open Scope N_scope.
+
+(* the checksum computed from the medium is the fold of the algorithm over the data image, for EVERY
+   chunk size >= 1 (auxiliary buffer of any size, or none) *)
+Theorem C10_chunk_independent : forall step fuel st m rest addr sum,
+  m_rd m = [] -> inwin m addr rest -> 1 <= p_bsize st -> (N.to_nat rest < fuel)%nat ->
+  exists m', calc_loop step fuel st m rest addr sum = (Some (cks step sum (at_ m addr rest)), m') /\
+             m_img m' = m_img m /\ m_base m' = m_base m /\ m_rd m' = [] /\ m_wr m' = m_wr m /\
+             (exists l, m_log m' = m_log m ++ l /\
+                        Forall (fun e => let '(w, a, n, g) := e in w = false /\ addr <= a /\ a + n <= addr + rest /\ g = n) l).
+Proof. exact calc_loop_ok. Qed.
+Print Assumptions C10_chunk_independent.
+
+(* a successful full or partial store: the data image is old overlaid with the part, the checksum octets are
+   the algorithm's value in host (little-endian) order, nothing outside the region changes *)
+Theorem C10_store : forall step st m src offset n,
+  wf st m -> sum_range step st -> offset + n <= p_dsize st -> n <= N.of_nat (length src) ->
+  let new := overlay (at_ m (p_daddr st) (p_dsize st)) offset (firstn (N.to_nat n) src) in
+  exists m', store_part step st m src offset n = (PSuccess, m') /\ wf st m' /\
+    at_ m' (p_daddr st) (p_dsize st) = new /\
+    at_ m' (p_caddr st) (p_csize st) = le_bytes (N.to_nat (p_csize st)) (cks step (p_init st) new) /\
+    firstn (N.to_nat (p_caddr st - m_base m)) (m_img m') = firstn (N.to_nat (p_caddr st - m_base m)) (m_img m) /\
+    skipn (N.to_nat (p_caddr st + p_csize st + p_dsize st - m_base m)) (m_img m')
+      = skipn (N.to_nat (p_caddr st + p_csize st + p_dsize st - m_base m)) (m_img m) /\
+    m_base m' = m_base m /\ length (m_img m') = length (m_img m).
+Proof. exact store_part_spec. Qed.
+Print Assumptions C10_store.
+
+(* round trip *)
+Theorem C10_roundtrip : forall step st m src offset n,
+  wf st m -> sum_range step st -> offset + n <= p_dsize st -> n <= N.of_nat (length src) ->
+  let new := overlay (at_ m (p_daddr st) (p_dsize st)) offset (firstn (N.to_nat n) src) in
+  exists m', store_part step st m src offset n = (PSuccess, m') /\
+    fst (validate step st m') = PSuccess /\ fst (fetch st m') = (PSuccess, new).
+Proof. exact store_validate_fetch. Qed.
+Print Assumptions C10_roundtrip.
+
+(* validation reads inside the region only and compares the stored checksum with the algorithm applied to the data *)
+Theorem C10_validate : forall step st m, wf st m ->
+  exists m', validate step st m =
+    ((if of_le (at_ m (p_caddr st) (p_csize st)) =? cks step (p_init st) (at_ m (p_daddr st) (p_dsize st))
+      then PSuccess else PInvalidData), m') /\ m_img m' = m_img m /\ m_base m' = m_base m /\ nofault m' /\
+    (exists l, m_log m' = m_log m ++ l /\ Forall (fun e => in_region st e = true /\ full_transfer e = true) l).
+Proof. exact validate_spec. Qed.
+Print Assumptions C10_validate.
+
+(* part accesses reaching beyond the data size - as mathematical integers, i.e. including pairs whose
+   size_t sum wraps - are refused without touching the medium *)
+Theorem C10_store_part_refused : forall step st m src offset n, p_dsize st < offset + n ->
+  store_part step st m src offset n = (PAddrRange, m).
+Proof. exact store_part_refused. Qed.
+Print Assumptions C10_store_part_refused.
+Theorem C10_fetch_part_refused : forall st m offset n, p_dsize st < offset + n ->
+  fetch_part st m offset n = (PAddrRange, [], m).
+Proof. exact (fetch_part_refused (fun s _ => s)). Qed.
+Print Assumptions C10_fetch_part_refused.
+Theorem C10_fetch_part : forall st m offset n, wf st m -> offset + n <= p_dsize st ->
+  exists m', fetch_part st m offset n = (PSuccess, at_ m (p_daddr st + offset) n, m') /\ m_img m' = m_img m.
+Proof. exact (fetch_part_spec (fun s _ => s)). Qed.
+Print Assumptions C10_fetch_part.
+
+(* alteration is reported whenever the configured checksum distinguishes the images *)
+Theorem C10_alteration : forall step st m, wf st m ->
+  of_le (at_ m (p_caddr st) (p_csize st)) <> cks step (p_init st) (at_ m (p_daddr st) (p_dsize st)) ->
+  fst (validate step st m) = PInvalidData.
+Proof. exact alteration_detected. Qed.
+Print Assumptions C10_alteration.
+
+Example C10_example :
+  let st := {| p_caddr := 4; p_csize := 2; p_dsize := 3; p_init := 0; p_bsize := 2 |} in
+  let m := {| m_base := 0; m_img := repeat 170 12; m_log := []; m_rd := []; m_wr := [] |} in
+  wf st m /\ fst (validate step_trivial st (snd (store step_trivial st m [1; 2; 3]))) = PSuccess /\
+  m_img (snd (store step_trivial st m [1; 2; 3])) = [170;170;170;170; 6;0; 1;2;3; 170;170;170].
+Proof.
+  cbv zeta. split; [|split; vm_compute; reflexivity].
+  unfold wf, nofault. repeat split; try (left; reflexivity); vm_compute; try reflexivity; discriminate.
+Qed.
